@@ -18,6 +18,7 @@ type cvConn struct {
 	SkipTime   bool   `json:"skip_time"`
 	SkipVerify bool   `json:"skip_verify"`
 	Clock      int    `json:"clock"` // hours added to the real time for Config.Time
+	RemoveSNI  bool   `json:"remove_sni"`
 }
 
 type cvScn struct {
@@ -82,7 +83,13 @@ func init() {
 				ccfg := &tls.Config{ServerName: cc.ServerName, InsecureServerNameToVerify: cc.ITV, InsecureSkipTimeVerify: cc.SkipTime,
 					InsecureSkipVerify: cc.SkipVerify, RootCAs: pk.Pool, ClientSessionCache: cache, OmitEmptyPsk: true,
 					Time: func() time.Time { return clock }}
-				r := hlib.RunHandshake(ccfg, scfg, id, hlib.HSOpts{Timeout: 5 * time.Second, Echo: []int{3}}) // the echo read also consumes the TLS 1.3 NewSessionTicket
+				rm := cc.RemoveSNI && id.Client != tls.HelloGolang.Client // RemoveSNIExtension is not available for HelloGolang
+				r := hlib.RunHandshake(ccfg, scfg, id, hlib.HSOpts{Timeout: 5 * time.Second, Echo: []int{3}, Prep: func(u *tls.UConn) error {
+					if rm {
+						return u.RemoveSNIExtension()
+					}
+					return nil
+				}}) // the echo read also consumes the TLS 1.3 NewSessionTicket
 				evs = append(evs, map[string]any{"ev": "Conn", "sc": s.Sc, "k": k + 1, "cok": r.CErr == nil, "sok": r.SErr == nil,
 					"cerr": hlib.ErrStr(r.CErr), "serr": hlib.ErrStr(r.SErr), "errtype": errType(r.CErr), "resumed": r.CS.DidResume,
 					"sresumed": r.SS.DidResume, "corigin": errOrigin(r.CErr), "cpanic": r.CPanic, "echo": r.EchoOK,
